@@ -211,7 +211,7 @@ func driveConvert(s *shardSet, rng *rand.Rand, thorough bool) ([]string, map[str
 				w := sub.Next()
 				w.Reset()
 				sty := f.Src[r.Intn(len(f.Src))]
-				src := w.spreadSource(sty, 2, 40+r.Intn(200))
+				src := w.spreadSource(sty, 2, 4000+r.Intn(3000)) // long calls, so that the goroutines really overlap
 				for k := 0; k < 6; k++ {
 					w.Alloc(f.Dst[r.Intn(len(f.Dst))], 2, w.Views[src].Length(), w.Views[src].Length())
 					w.Convert(f.Name, src, len(w.Views)-1)
@@ -356,11 +356,26 @@ func driveZero(s *shardSet, rng *rand.Rand, thorough bool) ([]string, map[string
 						w.Convert(f.Name, z, z)
 					}
 				}
-				for _, f := range ConvFns { // one cross-family conversion each way
-					if ty == kt && contains(f.Src, kt) && !contains(f.Dst, kt) {
-						w.Alloc(f.Dst[0], ch, 1, 1)
-						w.Convert(f.Name, z, len(w.Views)-1)
-						break
+				if ty == kt { // every conversion family from and into the inert view, with every partner element type
+					for _, f := range ConvFns {
+						if contains(f.Src, kt) {
+							for _, dt := range f.Dst {
+								w.Alloc(dt, ch, 0, 0)
+								e := len(w.Views) - 1
+								w.Convert(f.Name, z, e) // empty into empty
+								w.Alloc(dt, ch, 1, 1)
+								w.Convert(f.Name, z, e+1) // empty into non-empty
+								w.Drop(e + 1)
+								w.Drop(e)
+							}
+						}
+						if contains(f.Dst, kt) {
+							for _, st := range f.Src {
+								w.Alloc(st, ch, 1, 1)
+								w.Convert(f.Name, len(w.Views)-1, z) // non-empty into empty
+								w.Drop(len(w.Views) - 1)
+							}
+						}
 					}
 				}
 				if ch > 0 {
